@@ -43,12 +43,22 @@ import (
 const (
 	nWorkers = 16
 
-	// cpuLimitTicks is the processor time (USER_HZ ticks: 30 s) one evaluation
-	// may use before the parent ends the worker; hangLimit bounds the
-	// single-text confirmation runs. Timeouts are counted, never a verdict.
-	cpuLimitTicks = 30 * 100
-	hangLimit     = 15 * time.Second
+	// hangLimit bounds the single-text confirmation runs.
+	hangLimit = 15 * time.Second
 )
+
+// cpuLimit is the processor time (USER_HZ ticks) one evaluation may use before
+// the parent ends the worker: 4 s in the quick tier, 30 s in the thorough one.
+// An ordinary evaluation is bounded by the instruction budget and takes
+// milliseconds; texts that spin outside the bytecode loop are counted as
+// timeouts, never a verdict.
+func cpuLimit(tier string) int64 {
+	if tier == "thorough" {
+		return 30 * 100
+	}
+
+	return 4 * 100
+}
 
 // procInfo reads the processor time a process has used (utime+stime, in
 // ticks) and whether any of its threads is running or runnable.
@@ -262,7 +272,7 @@ func runWorker(k int, tier string) workerResult {
 					switch {
 					case quiet >= 12:
 						hung = true
-					case cpu-cpuAtChange > cpuLimitTicks:
+					case cpu-cpuAtChange > cpuLimit(tier):
 						hung = true
 					case time.Since(lastChange) > 15*time.Minute:
 						hung = true
@@ -652,7 +662,7 @@ func main() {
 	r.Assume(
 		"in-process drivers repeat the entry points with the functions of the working tree (commands.runSession.run/runLoop, admin.RunCodeHandler behind router.ServeHTTP); a crash is only reported after it was reproduced alone in a fresh process and, for `ego run`, with the plain ego binary",
 		"console input is a readline instance over a scripted reader (no terminal): key handling of a real terminal is not covered",
-		fmt.Sprintf("one evaluation is cut after %d bytecode instructions (deterministic), when the worker is blocked (no runnable thread, no processor time for 1.2 s) or after 30 s of processor time; the last two are counted as timeouts, which the statement allows", instructionBudget),
+		fmt.Sprintf("one evaluation is cut after %d bytecode instructions (deterministic), when the worker is blocked (no runnable thread, no processor time for 1.2 s) or after 4 s (quick) / 30 s (thorough) of processor time; the last two are counted as timeouts, which the statement allows", instructionBudget),
 		"texts are pure: identifiers outside the language are only fmt, strings, math, errors; sandbox on; HOME, TMPDIR, cwd inside the scratch directory; workers under an address-space limit",
 	)
 
